@@ -686,8 +686,10 @@ _fw_C04 = _rules_for("C04")
 def rule_c04_analysis_latched(ctx):
     """the remaining length lives in the body writer that the request analysis installs: the analysis must run once (latched on
     every successful path), otherwise each write starts from a fresh writer -- R02.7, shared with C02"""
-    from .rules_c02 import rule_host_and_framing
+    from .rules_c02 import rule_host_and_framing, rule_header_order
     rule_host_and_framing(ctx)
+    # ... and the lookups that analysis makes are lookups in the *effective* headers (a Content-Length added on the flow counts)
+    rule_header_order(ctx)
 
 
 C04_RULES = [rule_c04_write, rule_c04_exact_min, rule_c04_direct, rule_c04_who_writes, rule_c04_analysis_latched, _fw_C04]
